@@ -15,6 +15,7 @@ import (
 	"os"
 	"path"
 	"sync"
+	"syscall"
 	"time"
 
 	"go.uber.org/zap/zapcore"
@@ -224,8 +225,10 @@ func vfnTrunc(s string, n int) string {
 // from the GORACE log files and classified there (anchored -> violation, others -> listed).  A run that
 // finished its own work without a harness error therefore leaves with status 0; cleanup runs first
 // because deferred t.TempDir removal does not happen on os.Exit.
-func vfnRaceExit(t interface{ Failed() bool }, cleanup ...func()) {
-	if !vfnRaceEnabled || t.Failed() {
+// completed must be true only when the test body ran to its end (t.Fatal leaves through Goexit and
+// never sets it; t.Failed() cannot be asked because under -race it reports the detector's findings).
+func vfnRaceExit(completed bool, cleanup ...func()) {
+	if !vfnRaceEnabled || !completed {
 		return
 	}
 	for _, f := range cleanup {
@@ -236,5 +239,6 @@ func vfnRaceExit(t interface{ Failed() bool }, cleanup ...func()) {
 		_ = vfSinkF.Sync()
 	}
 	vfSinkMu.Unlock()
-	os.Exit(0)
+	// os.Exit(0) inside a test is turned into a panic by the testing package; leave directly
+	syscall.Exit(0)
 }
